@@ -3,7 +3,9 @@ From BQ Require Import qasm.QExp.
 From BQ Require Import qasm.QRegs.
 From BQ Require Import qasm.QGate.
 From BQ Require Import qasm.QSym.
+From BQ Require Import qasm.QEnc.
 From Coq Require Extraction ExtrOcamlBasic.
 Extraction "qasm_model.ml" m_flat m_ok m_eval m_denote m_naive m_simple m_has m_bind m_subst_flat
   m_denote_env m_bind_eval
-  convert_qubit_ids_to_indices first_index indices cxgate ugate reset_locs measure_keys.
+  convert_qubit_ids_to_indices first_index indices cxgate ugate reset_locs measure_keys
+  body_formals.
